@@ -74,15 +74,39 @@ func (rt *Runtime) SetSrcMode(mode string) error {
 	rt.srcMode = mode
 	switch mode {
 	case "rel":
+		os.Unsetenv("PWD")
 		return os.Chdir(rt.Root)
 	case "abs":
+		os.Unsetenv("PWD")
 		return os.Chdir("/")
 	case "dotdot":
 		d := filepath.Join(rt.Root, ".cwd")
 		if err := os.MkdirAll(d, 0o755); err != nil {
 			return err
 		}
+		os.Unsetenv("PWD")
 		return os.Chdir(d)
+	case "dotdot-linked-cwd":
+		// the same working directory, entered through a symbolic link that
+		// lives elsewhere, with $PWD saying so (what an interactive shell
+		// does): ".." is the parent of the directory, not of the link
+		d := filepath.Join(rt.Root, ".cwd")
+		if err := os.MkdirAll(d, 0o755); err != nil {
+			return err
+		}
+		ld := filepath.Join(filepath.Dir(rt.Root), "verif-cwdlink")
+		if err := os.MkdirAll(ld, 0o755); err != nil {
+			return err
+		}
+		l := filepath.Join(ld, "c")
+		os.Remove(l)
+		if err := os.Symlink(d, l); err != nil {
+			return err
+		}
+		if err := os.Chdir(l); err != nil {
+			return err
+		}
+		return os.Setenv("PWD", l)
 	}
 	return fmt.Errorf("unknown src mode %q", mode)
 }
@@ -91,7 +115,7 @@ func (rt *Runtime) srcPrefix() string {
 	switch rt.srcMode {
 	case "abs":
 		return rt.Root + "/"
-	case "dotdot":
+	case "dotdot", "dotdot-linked-cwd":
 		return "../"
 	}
 	return ""
